@@ -185,9 +185,9 @@ pub fn query_error_kind(e: &QueryError) -> &'static str {
 pub fn convert_output(o: &QueryOutput) -> QOut {
     let rows = o.rows.as_ref().map(|rs| rs.iter().map(|r| r.iter().map(value_to_cell).collect()).collect()).unwrap_or_default();
     QOut {
-        colnames: o.colnames.clone(),
+        colnames: o.colnames.iter().map(|n| String::from_utf8_lossy(n.as_bytes()).into_owned()).collect(),
         rows,
-        cols: o.columns.iter().map(|(n, c)| (n.clone(), column_to_cells(c))).collect(),
+        cols: o.columns.iter().map(|(n, c)| (String::from_utf8_lossy(n.as_bytes()).into_owned(), column_to_cells(c))).collect(),
         had_rows: o.rows.is_some(),
     }
 }
@@ -219,6 +219,17 @@ pub fn run_query(db: &LocustDB, sql: &str) -> Result<QOut, QErr> {
     sched::progress();
     out
 }
+
+/// the LZ4 frame magic (04 22 4D 18) showing up inside a returned string: the signature of the
+/// open finding "Column::decode unpacks strings from the compressed section"
+pub fn is_lz4_garbage(s: &str) -> bool {
+    // ... or bytes that are no text at all: control characters or invalid UTF-8 (after lossy
+    // conversion: U+FFFD). The generators never produce either, so such a string can only be
+    // compressed bytes decoded as packed strings.
+    s.contains("\"M\u{18}") || s.chars().any(|c| c == '\u{FFFD}' || (c as u32) < 0x20 || c == '\u{7f}')
+}
+
+pub const GARBAGE_CLASS: &str = "cell:wrong_value:lz4_frame_bytes_read_as_string";
 
 pub fn quote_ident(s: &str) -> String {
     format!("\"{}\"", s)
@@ -466,6 +477,10 @@ impl Env {
         let mut want_cols: Vec<String> = t.cols.clone();
         want_cols.sort();
         if out.colnames != want_cols {
+            if out.colnames.iter().any(|c| is_lz4_garbage(c)) {
+                self.violate(GARBAGE_CLASS, format!("[{ctx}] table {name}: SELECT * lists column names that are compressed bytes: {:?}", out.colnames));
+                return;
+            }
             let got: BTreeSet<_> = out.colnames.iter().cloned().collect();
             let want: BTreeSet<_> = want_cols.iter().cloned().collect();
             let missing: Vec<_> = want.difference(&got).cloned().collect();
@@ -496,7 +511,7 @@ impl Env {
                     let class = match (want, got) {
                         (Cell::N, _) => "cell:null_became_value",
                         (_, Cell::N) => "cell:value_became_null",
-                        (Cell::S(_), Cell::S(g)) if g.contains("\"M\u{18}") => "cell:wrong_value:lz4_frame_bytes_read_as_string",
+                        (_, Cell::S(g)) if is_lz4_garbage(g) => "cell:wrong_value:lz4_frame_bytes_read_as_string",
                         _ => {
                             // does the value belong to another row of the same column? (shift)
                             let col = t.column(cname);
@@ -548,7 +563,7 @@ impl Env {
                 w.sort();
                 if g != w {
                     let gs: BTreeSet<_> = g.iter().cloned().collect();
-                    let class = if gs.len() != g.len() { "catalogue:table_listed_twice" } else if g.len() < w.len() { "catalogue:table_missing" } else { "catalogue:table_extra" };
+                    let class = if g.iter().any(|c| is_lz4_garbage(c)) { GARBAGE_CLASS } else if gs.len() != g.len() { "catalogue:table_listed_twice" } else if g.len() < w.len() { "catalogue:table_missing" } else { "catalogue:table_extra" };
                     self.violate(class, format!("[{ctx}] _meta_tables lists {:?}, model {:?}", got, want));
                 }
             }
@@ -565,7 +580,7 @@ impl Env {
                     want.sort();
                     if got != want {
                         let gs: BTreeSet<_> = got.iter().cloned().collect();
-                        let class = if gs.len() != got.len() { "catalogue:column_listed_twice" } else if got.len() < want.len() { "catalogue:column_missing" } else { "catalogue:column_extra" };
+                        let class = if got.iter().any(|c| is_lz4_garbage(c)) { GARBAGE_CLASS } else if gs.len() != got.len() { "catalogue:column_listed_twice" } else if got.len() < want.len() { "catalogue:column_missing" } else { "catalogue:column_extra" };
                         self.violate(class, format!("[{ctx}] _meta_columns_{name} lists {:?}, model {:?}", got, want));
                     }
                 }
